@@ -10,6 +10,8 @@
 #include <stdlib.h>
 #include <string.h>
 #include <sys/epoll.h>
+#include <sys/eventfd.h>
+#include <sys/timerfd.h>
 #include <sys/uio.h>
 #include <unistd.h>
 
@@ -38,12 +40,16 @@ struct State {
   std::map<int, bool> traced;
   std::vector<std::pair<const char*, size_t>> dead;
   std::map<std::pair<int, int>, void*> regs;          // (epfd, fd) -> data.ptr
+  // virtual timerfds (C07): descriptor (really an eventfd) -> armed?, absolute deadline on rt's virtual clock
+  struct VTimer { bool armed = false; long long deadline = 0; };
+  std::map<int, VTimer> vtimers;
 } g;
 
 unsigned int g_epoch = 0;
 long g_fired[rtio::C_NCALLS][rtio::A_NACTS];
 long g_calls[rtio::C_NCALLS];
 long g_epoll_waits = 0, g_epoll_blocks = 0, g_epoll_ctls = 0;
+long g_timerfd_settimes = 0, g_timerfd_fired = 0;
 bool g_atexit = false;
 bool (*g_filter)(void*) = nullptr;
 
@@ -53,6 +59,7 @@ const char* kAct[] = {"eagain", "eintr", "err", "short"};
 void print_stats() {
   // parsed by tools/vlib.run_rt as additional stats of the run
   printf("S - rtio_epoll_waits=%ld rtio_epoll_blocks=%ld rtio_epoll_ctls=%ld", g_epoll_waits, g_epoll_blocks, g_epoll_ctls);
+  if (g_timerfd_settimes) printf(" rtio_timerfd_settimes=%ld rtio_timerfd_fired=%ld", g_timerfd_settimes, g_timerfd_fired);
   for (int c = 0; c < rtio::C_NCALLS; ++c) {
     printf(" rtio_calls_%s=%ld", kCall[c], g_calls[c]);
     for (int a = 0; a < rtio::A_NACTS; ++a)
@@ -71,6 +78,26 @@ bool in_dead(const void* p) {
   const char* q = static_cast<const char*>(p);
   for (auto& d : g.dead) if (q >= d.first && q < d.first + d.second) return true;
   return false;
+}
+
+// virtual timerfds whose deadline has been reached on the virtual clock become readable now (one-shot)
+void fire_due_timers() {
+  const long long now = rt::vnow_ns();
+  for (auto& kv : g.vtimers) {
+    if (kv.second.armed && kv.second.deadline <= now) {
+      kv.second.armed = false;
+      g_timerfd_fired++;
+      const unsigned long long one = 1;
+      ssize_t r = REAL(write)(kv.first, &one, sizeof one); (void)r;
+    }
+  }
+}
+// earliest deadline of an armed virtual timerfd registered with epoll instance `epfd` (0 = none)
+long long earliest_timer_deadline(int epfd) {
+  long long best = 0;
+  for (auto& kv : g.vtimers)
+    if (kv.second.armed && g.regs.count({epfd, kv.first}) && (best == 0 || kv.second.deadline < best)) best = kv.second.deadline;
+  return best;
 }
 
 const Fault* find_fault(rtio::Call c, int fd) {
@@ -104,7 +131,7 @@ bool apply_simple_fault(const Fault* f, rtio::Call c, ssize_t* out) {
 namespace rtio {
 
 void reset() {
-  g.faults.clear(); g.ncalls.clear(); g.traced.clear(); g.dead.clear(); g.regs.clear(); g_filter = nullptr;
+  g.faults.clear(); g.ncalls.clear(); g.traced.clear(); g.dead.clear(); g.regs.clear(); g.vtimers.clear(); g_filter = nullptr;
   if (!g_atexit) { g_atexit = true; atexit(print_stats); }
 }
 void fault(Call c, int fd, int kth, Act a, int arg) { g.faults.push_back(Fault{c, fd, kth, a, arg}); }
@@ -129,6 +156,7 @@ int epoll_wait(int epfd, struct epoll_event* ev, int maxev, int timeout) {
   rt::point("epoll_wait");
   bool blocked = false;
   for (;;) {
+    if (!g.vtimers.empty()) fire_due_timers();
     int n = REAL(epoll_wait)(epfd, ev, maxev, 0);
     if (n > 0) {
       // monitor: the kernel must not hold a reference to an operation that has completed
@@ -154,8 +182,39 @@ int epoll_wait(int epfd, struct epoll_event* ev, int maxev, int timeout) {
     }
     if (n != 0 || timeout == 0) return n;
     if (!blocked) { blocked = true; g_epoll_blocks++; }
-    sched_yield();   // rt: disabled until some other thread made progress
+    long long d = g.vtimers.empty() ? 0 : earliest_timer_deadline(epfd);
+    if (d > 0) rt::yield_until(d);   // ... or until the virtual clock has reached the armed timerfd's deadline
+    else sched_yield();              // rt: disabled until some other thread made progress
   }
+}
+
+// ---- timerfd on the VIRTUAL clock (C07).  A managed thread's timerfd is an eventfd in disguise: it becomes
+// readable (8-byte counter, like a timerfd) when rt's virtual clock has reached the armed absolute deadline;
+// epoll_wait above fires due timers before every poll and lets the clock advance to the earliest deadline
+// while the caller is blocked.  Re-arming or disarming clears a pending expiration, as the kernel does.
+int timerfd_create(int clockid, int flags) {
+  if (!managed()) return REAL(timerfd_create)(clockid, flags);
+  int fd = REAL(eventfd)(0, EFD_NONBLOCK | ((flags & TFD_CLOEXEC) ? EFD_CLOEXEC : 0));
+  if (fd >= 0) g.vtimers[fd] = State::VTimer{};
+  return fd;
+}
+
+int timerfd_settime(int fd, int flags, const struct itimerspec* nv, struct itimerspec* ov) {
+  if (!managed()) return REAL(timerfd_settime)(fd, flags, nv, ov);
+  auto it = g.vtimers.find(fd);
+  if (it == g.vtimers.end()) return REAL(timerfd_settime)(fd, flags, nv, ov);
+  g_timerfd_settimes++;
+  kernel_effect_point();
+  unsigned long long junk;
+  ssize_t r = REAL(read)(fd, &junk, sizeof junk); (void)r;   // drop a pending expiration
+  if (ov) memset(ov, 0, sizeof *ov);
+  long long v = (long long)nv->it_value.tv_sec * 1000000000LL + nv->it_value.tv_nsec;
+  it = g.vtimers.find(fd);
+  if (it == g.vtimers.end()) { errno = EBADF; return -1; }
+  if (v == 0) it->second.armed = false;
+  else { it->second.armed = true; it->second.deadline = (flags & TFD_TIMER_ABSTIME) ? v : rt::vnow_ns() + v; }
+  errno = 0;
+  return 0;
 }
 
 int epoll_ctl(int epfd, int op, int fd, struct epoll_event* ev) {
@@ -238,6 +297,7 @@ int close(int fd) {
   int e = errno;
   if (r < 0 && e == EBADF) rt::fail("close() of a descriptor that is not open (released twice)");
   for (auto it = g.regs.begin(); it != g.regs.end();) { if (it->first.second == fd || it->first.first == fd) it = g.regs.erase(it); else ++it; }
+  g.vtimers.erase(fd);
   errno = e;
   return r;
 }
